@@ -158,7 +158,7 @@ struct XferRun : SdoEnv {
     bool metaOf(uint16_t idx, uint8_t sub, SdoObj &m) {
         const ObjSpec *o = w.ospec(0, idx, sub); if (!o) return false;
         m.idx = idx; m.sub = sub; m.rd = (o->flags & CO_OBJ_____R_) != 0; m.wr = (o->flags & CO_OBJ______W) != 0; m.nodeid = (o->flags & CO_OBJ__N____) != 0;
-        m.kind = o->type == T_DOMAIN ? 1 : o->type == T_STRING ? 2 : o->type == T_USER ? 3 : (o->type == T_U8 || o->type == T_U16 || o->type == T_U32) ? 0 : 4;
+        m.kind = o->type == T_DOMAIN ? 1 : o->type == T_STRING ? 2 : o->type == T_USER ? ((o->val >> 24) ? 3 : 5) : (o->type == T_U8 || o->type == T_U16 || o->type == T_U32) ? 0 : 4;
         m.size = o->type == T_DOMAIN || o->type == T_STRING ? (uint32_t)o->bytes.size() : o->type == T_USER ? 4 : (uint32_t)ot_width(o->type, sub);
         return true;
     }
@@ -204,8 +204,8 @@ struct XferRun : SdoEnv {
                 if ((ccs == 1 || ccs == 6) && !m.wr) { fail("req/positive-readonly", "download to a read-only object answered " + r.str() + ctx); return; }
                 if (ccs == 1 && (cmd & 2)) { // expedited download confirmed: the named object must now hold the data
                     uint32_t n = (cmd & 1) ? 4 - ((cmd >> 2) & 3) : m.size; std::vector<uint8_t> now = sdo_view(w, 0, m);
-                    if (m.kind != 3 && (now.size() < n || memcmp(now.data(), f.d + 4, std::min<uint32_t>(n, 4)) != 0)) { fail("req/download-confirmed-not-performed", "expedited download confirmed but the object holds " + hexstr(now) + ctx); return; }
-                    if (m.kind == 3) { fail("req/download-confirmed-type-error", "download confirmed although the object's type refuses writes" + ctx); return; }
+                    if (m.kind != 3 && m.kind != 5 && (now.size() < n || memcmp(now.data(), f.d + 4, std::min<uint32_t>(n, 4)) != 0)) { fail("req/download-confirmed-not-performed", "expedited download confirmed but the object holds " + hexstr(now) + ctx); return; }
+                    if (m.kind == 3 || m.kind == 5) { fail("req/download-confirmed-type-error", "download confirmed although the object's type refuses writes" + ctx); return; }
                     // nothing but the named object changed
                     auto rg = objRange(idx, sub); std::vector<uint8_t> img2 = w.image(0); for (size_t i = 0; i < img.size(); i++) if (img[i] != img2[i] && (i < rg.first || i >= rg.first + rg.second)) { fail("req/other-object-changed", "expedited download changed another object" + ctx); return; }
                 }
@@ -227,6 +227,7 @@ struct XferRun : SdoEnv {
                 if (sz && width < m.size) { if (m.kind == 1 && !isAbort(resp[0])) { cov.hit("short-domain-write-accepted"); return; } abortWith(0x06070013, "length-low"); return; }
                 if (exped && !sz && m.size > 4) { abortWith(0, "expedited-too-big"); return; }
                 if (m.kind == 3) { if (exped) abortWith(0x06060000u + (uint32_t)plan.c("usercode", 0x10), "type-code"); return; }
+                if (m.kind == 5) { uint32_t e = w.ospec(0, idx, sub)->val; if (exped) abortWith(e == CO_ERR_OBJ_RANGE ? 0x06090030u : e == CO_ERR_OBJ_MAP_TYPE ? 0x06040041u : e == CO_ERR_OBJ_MAP_LEN ? 0x06040042u : 0x06040043u, "type-reject-code"); return; }
                 if (m.kind == 2) { abortWith(0, "string-write"); return; }
                 if (isAbort(resp[0])) { fail("req/valid-refused", "valid download initiate refused with " + hex8(resp[0].u32(4)) + ctx); return; }
                 if (resp[0].d[0] != 0x60) { fail("req/dn-init-cmd", resp[0].str() + ctx); return; }
@@ -236,6 +237,7 @@ struct XferRun : SdoEnv {
                 if (cmd != 0x40) { cov.hit("reserved-bits"); return; }
                 uint32_t vd = lookupVerdict(false); if (vd) { abortWith(vd, vd == 0x06020000 ? "no-object" : vd == 0x06090011 ? "no-subindex" : "write-only"); return; }
                 if (m.kind == 3) { abortWith(0x06060000u + (uint32_t)plan.c("usercode", 0x10), "type-code"); return; }
+                if (m.kind == 5) { abortWith(0, "type-reject-read"); return; }
                 if (isAbort(resp[0])) { fail("req/valid-refused", "valid upload initiate refused with " + hex8(resp[0].u32(4)) + ctx); return; }
                 if ((resp[0].d[0] >> 5) != 2) { fail("req/up-init-cmd", resp[0].str() + ctx); return; }
                 if (changed) fail("req/upload-changed-object", "an upload request changed object storage" + ctx);
@@ -249,7 +251,7 @@ struct XferRun : SdoEnv {
                 bool sz = cmd & 2; uint32_t width = sz ? f.u32(4) : 0; if (sz && width == 0) sz = false;
                 if (sz && width > m.size && m.kind != 2) { abortWith(0x06070012, "length-high"); return; }
                 if (sz && width < m.size) { if (!isAbort(resp[0])) { cov.hit("short-block-write-accepted"); return; } abortWith(0x06070013, "length-low"); return; }
-                if (m.kind == 2 || m.kind == 3) return;   // refusal may come at any later stage
+                if (m.kind == 2 || m.kind == 3 || m.kind == 5) return;   // refusal may come at any later stage
                 if (isAbort(resp[0])) { fail("req/valid-refused", "valid block download initiate refused with " + hex8(resp[0].u32(4)) + ctx); return; }
                 if ((resp[0].d[0] & 0xFB) != 0xA0 || resp[0].d[4] < 1 || resp[0].d[4] > 127) { fail("req/blkdn-init-resp", resp[0].str() + ctx); return; }
                 cov.hit("verdict-accepted"); return;
@@ -259,7 +261,7 @@ struct XferRun : SdoEnv {
                 if (cmd & 0x18) { cov.hit("reserved-bits"); return; }
                 uint32_t vd = lookupVerdict(false); if (vd) { abortWith(vd, vd == 0x06020000 ? "no-object" : vd == 0x06090011 ? "no-subindex" : "write-only"); return; }
                 if (f.d[4] < 1 || f.d[4] > 127) { abortWith(0x05040002, "block-size"); return; }
-                if (m.kind == 3) return;
+                if (m.kind == 3 || m.kind == 5) return;
                 if (isAbort(resp[0])) { fail("req/valid-refused", "valid block upload initiate refused with " + hex8(resp[0].u32(4)) + ctx); return; }
                 if ((resp[0].d[0] & 0xF9) != 0xC0) { fail("req/blkup-init-resp", resp[0].str() + ctx); return; }
                 cov.hit("verdict-accepted"); return;
@@ -342,6 +344,7 @@ static Frame gen_request(Rng &r, const SdoDict &d) {
     f.d[0] = r.chance(3, 4) ? cmds[r.below(sizeof cmds)] : r.byte();
     int k = (int)r.below(12);
     static const uint16_t others[] = {0x1000, 0x1001, 0x1018, 0x1200, 0x1017, 0x1400, 0x2FFF, 0x0000, 0xFFFF, 0x1201};
+    if (r.chance(1, 8)) { uint16_t i = (uint16_t)(0x2300 + r.below(5)); f.d[0] = r.pick<uint8_t>({0x23, 0x23, 0x23, 0x40, 0x22, 0x21}); f.d[1] = (uint8_t)i; f.d[2] = (uint8_t)(i >> 8); f.d[3] = 0; for (int j = 4; j < 8; j++) f.d[j] = r.byte(); return f; }   // types that refuse the value
     if (k < 7) { const SdoObj &o = d.objs[r.below((uint32_t)d.objs.size())]; f.d[1] = (uint8_t)o.idx; f.d[2] = (uint8_t)(o.idx >> 8); f.d[3] = o.sub; }
     else if (k < 9) { const SdoObj &o = d.objs[r.below((uint32_t)d.objs.size())]; f.d[1] = (uint8_t)o.idx; f.d[2] = (uint8_t)(o.idx >> 8); f.d[3] = (uint8_t)(o.sub + 10 + r.below(200)); }
     else if (k < 11) { uint16_t i = others[r.below(10)]; f.d[1] = (uint8_t)i; f.d[2] = (uint8_t)(i >> 8); f.d[3] = (uint8_t)r.below(5); }
